@@ -1,7 +1,7 @@
 SPECIFICATION SpecSync
 CONSTANTS
   N = 4
-  MaxView = 1
+  MaxView = 0
   Height = 1
   InitSilentSets <- SilentAny
   BugQuorum = FALSE
